@@ -56,10 +56,10 @@ CHECKS = {
     "C16": ("E1", E1,
             "substr: all strings of length 0..4 over {1,2,3,4-byte characters} x start x length over -10..10 plus 64-bit extremes (+ absent length) with the partition law; cat: all operand lists of length 0..3 over 23 values (4 over 8) with the split law at every split point; run with overflow checks on and off.",
             "5/C16", "strings longer than 4 (5 thorough) characters are covered by a few probes only"),
-    "C17": ("E2+E3", "explicit-state model checking of the real code: (E2) DFS over call histories whose states are fork() snapshots of the real process, every call compared with its isolated outcome; (E3) stateless preemption-bounded DFS over all interleavings of real threads calling apply() on shared inputs, switched only at feature-guarded hook points (iterative context bounding, bounds 0..2, 3 thorough) and, in an instrumented build, at every function entry (bound 1); every configuration explored warm and from a cold start (each schedule in a forked child of a pristine process), each execution followed by a sequential repetition of its calls",
+    "C17": ("E2+E3", "explicit-state model checking of the real code: (E2) DFS over call histories whose states are fork() snapshots of the real process, every call compared with its isolated outcome; fixed call lists (deep in-memory rules included) re-run under every value of every known environment variable and after a change of directory (oracle-free law: same outcome as with the variable unset); spellings a normalising key would conflate and join-colliding paths used one right after the other on a thread; (E3) stateless preemption-bounded DFS over all interleavings of real threads calling apply() on shared inputs, switched only at feature-guarded hook points (iterative context bounding, bounds 0..2, 3 thorough) and, in an instrumented build, at every function entry (bound 1); every configuration explored warm and from a cold start (each schedule in a forked child of a pristine process), each execution followed by a sequential repetition of its calls",
             "Purity is a universal claim over histories and schedules. E2 closes all call sequences up to depth 2 (3 thorough) over a 414-call main alphabet and a 448-call coercion alphabet (the same ambiguous operand under every coercion family) starting from every reached state - a state being a process snapshot, so any hidden memory whatsoever is carried along; E3-fine (a second, nightly build of the tree under test with -Z instrument-mcount: every function entry, incl. monomorphised std lock / collection operations and any newly added function, is a scheduling point - no source change) closes all schedules with at most one preemption of every pair of 3 (16 thorough) tiny calls; E3 closes all schedules of ~180 two- and three-thread harnesses (every pair of 18 operator families incl. identical pairs on a shared rule, hand-picked collision-prone bodies, 100-deep rules) within the preemption bound. Every configuration is explored twice: warm (all schedules in one process) and cold (every schedule and every reference call in a forked child of a process that never evaluated anything, so that first uses of lazily built process-wide state race in every schedule). Every execution is compared with the isolated outcome (value, Err-ness, log lines, input integrity) and followed by a sequential repetition of its calls (aftermath: damage visible only to later calls); replayed schedules must reproduce. Thorough tier adds, as a proviso only, the same thread bodies free-running under miri's data-race detector.",
             "5/C17", "interleavings finer than a function entry are not explored, and below hook-point granularity only at preemption bound 1 for the small calls of E3-fine (the free-running runs are provisos, not the deciding step); a thread found blocked on a real lock is detected by a 40 ms watchdog; histories longer than 3 calls are not enumerated"),
-    "C18": ("E4", "exhaustive exploration of the real binary: full product rule text x data text x delivery form (argument / stdin / stdin with '-' / argument with junk on stdin) and all two-stage pipelines over the valid texts, every process run compared with the library in-process",
+    "C18": ("E4", "exhaustive exploration of the real binary: full product rule text x data text x delivery form (argument / stdin / stdin with '-' / argument with junk on stdin) and all two-stage pipelines over the valid texts, every process run compared with the library in-process; the whole product once more in a hostile environment (current directory holding a file named after every rule / data text, every known environment variable set - standard names plus every name the tree under test reads)",
             "The wrapper adds argument parsing, stdin handling, printing and the exit status; each of these is decided by running the real binary built from the working tree (debug and release profile, both tiers) on every member of the stated product (45 rule texts x 24 data texts x 4 forms + deep nesting + ~3000 chains) and comparing stdout and exit status exactly with what the library does on the same texts.",
             "5/C18", "texts outside the stated lists are not covered; option-like non-JSON texts (-h, --help) are options, not texts; OS-level faults on stdout are outside the quantifier"),
     "C19": ("E4", "exhaustive exploration of the real Python package: full product (rule object x data object x entry point x combination of omitted / supplied optional arguments), every call compared with the library reached through the harness oracle",
